@@ -37,6 +37,7 @@ type Activation struct {
 	frameRanges []frameRangeT
 	specVars    map[string]SVal
 	loopRT      map[*loopInfo]*loopRuntime
+	liveCounters map[*loopInfo]map[cellKey]bool
 }
 
 type retRec struct {
@@ -393,7 +394,7 @@ func (a *Activation) merge(preds []*State, predBlocks []*ssa.BasicBlock, b *ssa.
 		a.resolvePhis(b, predBlocks, preds, st)
 		return st
 	}
-	out := &State{cells: map[cellKey]Val{}, heaps: map[string]Term{}, ghosts: map[string]Term{}, closedSeen: map[string]bool{}}
+	out := &State{cells: map[cellKey]Val{}, heaps: map[string]Term{}, ghosts: map[string]Term{}, closedSeen: map[string]bool{}, symHeaps: preds[0].symHeaps}
 	for k := range preds[0].closedSeen {
 		all := true
 		for _, p := range preds[1:] {
